@@ -7,7 +7,8 @@
 (* File system = set of [p: absolute path, t: "dir"|"file"|"link", tg: link target id].  R = /J/R; /OUT    *)
 (* and /J are outside.  Hostile tree: up to two top-level entries, a directory entry may have one child;   *)
 (* names: "a", "b", "dd" (".."), "sl" (contains '/'), "dot" ("."); kinds dir/file/link; link targets:      *)
-(* "up" (..), "upup" (../..), "absout" (/OUT), "a".                                                        *)
+(* "up" (..), "upup" (../..), "absout" (/OUT), "a".  Plus (Node2/Node3) directories with two entries below  *)
+(* the top level over a reduced alphabet.                                                                  *)
 EXTENDS Naturals, Sequences, FiniteSets, TLC, Json
 CONSTANTS SkipDupCheck, NoSanityInCreate, NoSanityInFill, NoExcl, Emit
 
@@ -82,10 +83,22 @@ AnyDup(nodes) == HasDup(nodes) \/ \E i \in 1..Len(nodes) : nodes[i].kind = "dir"
 
 Leaf == [name : Names, kind : {"file", "link"}, tgt : Tgts, kids : {<<>>}]
 Node == Leaf \cup {[name |-> nm, kind |-> "dir", tgt |-> "a", kids |-> k] : nm \in Names, k \in {<<>>} \cup {<<l>> : l \in Leaf}}
-Forests == {<<n>> : n \in Node} \cup {<<n, m>> : n \in Node, m \in Node}
+(* deeper shapes over a reduced alphabet (sane names, escaping targets): a directory with two entries - so a  *)
+(* duplicate can sit below the top level -, reached directly, next to a sibling, or through an only-child     *)
+(* directory.  tree_sort() must reject a duplicate at every level, not only among the entries it starts from. *)
+LeafD  == [name : {"a", "b"}, kind : {"file", "link"}, tgt : {"upup", "absout"}, kids : {<<>>}]
+Node1D == LeafD \cup {[name |-> nm, kind |-> "dir", tgt |-> "a", kids |-> k] : nm \in {"a", "b"}, k \in {<<>>} \cup {<<l>> : l \in LeafD}}
+Node2  == {[name |-> nm, kind |-> "dir", tgt |-> "a", kids |-> <<x, y>>] : nm \in {"a", "b"}, x \in Node1D, y \in Node1D}
+Node3  == {[name |-> "a", kind |-> "dir", tgt |-> "a", kids |-> <<n>>] : n \in Node2}
+(* the forest families are enumerated one by one (a union would make TLC normalise 85k nested records) *)
+InForests(f) == \/ \E n \in Node : f = <<n>>
+                \/ \E n \in Node, m \in Node : f = <<n, m>>
+                \/ \E n \in Node2 : f = <<n>>
+                \/ \E n \in Node3 : f = <<n>>
+                \/ \E n \in Node2, m \in LeafD : f = <<n, m>> \/ f = <<m, n>>
 
 VARIABLES forest, result
-Init == forest \in Forests /\ result = [fs |-> {[p |-> <<"J">>, t |-> "dir", tg |-> "a"], [p |-> Root, t |-> "dir", tg |-> "a"],
+Init == InForests(forest) /\ result = [fs |-> {[p |-> <<"J">>, t |-> "dir", tg |-> "a"], [p |-> Root, t |-> "dir", tg |-> "a"],
                                               [p |-> <<"OUT">>, t |-> "dir", tg |-> "a"]}, bad |-> FALSE, fail |-> FALSE, ran |-> FALSE]
 Run == /\ ~result.ran
        /\ IF ~SkipDupCheck /\ AnyDup(forest)
@@ -97,5 +110,7 @@ Run == /\ ~result.ran
 Next == Run \/ (result.ran /\ UNCHANGED <<forest, result>>)
 Spec == Init /\ [][Next]_<<forest, result>>
 Confined == ~result.bad /\ \A e \in result.fs : Inside(e.p) \/ e.p \in {<<"J">>, <<"OUT">>}
-EmitOK == (Emit /\ result.ran) => PrintT(<<"RESULT", ToJson([forest |-> forest, fail |-> result.fail])>>)
+(* with a deviation constant on, the forests that end "bad" are exactly those for which that barrier is the only *)
+(* protection: they are emitted and unpacked by the real tool                                                    *)
+EmitOK == (Emit /\ result.ran /\ result.bad) => PrintT(<<"RESULT", ToJson([forest |-> forest, fail |-> result.fail])>>)
 =============================================================================
